@@ -178,6 +178,7 @@ type otLog struct {
 	conn      *p2p.Conn // the connection the OT runs on (set by Init*)
 	posInit   int       // stream position (bytes written by this party) when OT initialisation began
 	posEnd    int       // stream position when the last Send/Receive returned
+	afterOT   func()    // called when a Send/Receive has returned (a scheduling gate for overlapping sessions)
 }
 
 // wpos is the number of bytes this party has written to its connection so far (flushed or buffered).
@@ -214,6 +215,9 @@ func (o *otLog) Send(wires []ot.Wire) error {
 	o.mu.Unlock()
 	err := o.inner.Send(wires)
 	o.posEnd = o.wpos()
+	if o.afterOT != nil {
+		o.afterOT()
+	}
 	return err
 }
 func (o *otLog) Receive(flags []bool, result []ot.Label) error {
@@ -222,6 +226,9 @@ func (o *otLog) Receive(flags []bool, result []ot.Label) error {
 	o.mu.Unlock()
 	err := o.inner.Receive(flags, result)
 	o.posEnd = o.wpos()
+	if o.afterOT != nil {
+		o.afterOT()
+	}
 	return err
 }
 
@@ -251,7 +258,9 @@ type sessOpts struct {
 	mask      []byte
 	timeout   time.Duration
 	capacity  int
-	shortRand int // > 0: the randomness source returns at most this many bytes per Read
+	shortRand int    // > 0: the randomness source returns at most this many bytes per Read
+	gAfterOT  func() // gates: run when the garbler's / the evaluator's OT step has returned
+	eAfterOT  func()
 }
 
 type sessResult struct {
@@ -324,7 +333,7 @@ func runSession(o sessOpts, gfun func(*env.Config, *p2p.Conn, ot.OT) ([]*big.Int
 	}
 	gconn := p2p.NewConn(&sessRW{r: eg, w: ge})
 	econn := p2p.NewConn(&sessRW{r: ge, w: eg})
-	res := &sessResult{otG: &otLog{inner: mkOT(o.ot)}, otE: &otLog{inner: mkOT(o.ot)}}
+	res := &sessResult{otG: &otLog{inner: mkOT(o.ot), afterOT: o.gAfterOT}, otE: &otLog{inner: mkOT(o.ot), afterOT: o.eAfterOT}}
 	dr := newDetRand(o.randSeed)
 	dr.max = o.shortRand
 	cfg := &env.Config{Rand: dr}
